@@ -43,6 +43,8 @@ type stream struct {
 	closedEv   int32
 	closedErr  int32
 	appClosed  bool
+	flaggedTwice bool
+	overlapClosed bool // closed by two overlapping Close calls: the closed notification may be lost (at most once is what is required)
 	writeSeq   int
 	points     uint64 // data points the application wrote successfully
 	evAtClose  int32 // closed notifications delivered before the connection's Close (-1: not yet closed)
@@ -78,6 +80,8 @@ type impl struct {
 	incAtClose int
 	released int // dial attempts released from the gate so far (incl. the initial connect)
 	ackAttempts int // attempts the events so far account for (1 + outages + elapsed back-offs): an attempt that starts early because the harness was slow is not shown before its event
+	holdOpen bool     // the broker swallows stream open requests (their exchange is to be cut)
+	shorts   []string // names of requests whose context ended during an outage: they must never reach the broker
 	tokenFlagged bool
 	pendingViolation string
 	dialsAtClose int
@@ -149,6 +153,13 @@ func (i *impl) reset() string {
 				if h != "" && bt.Name == h {
 					return true // swallowed: the exchange stays unanswered until the transport is cut
 				}
+			}
+		case *message.UpstreamOpenRequest, *message.DownstreamOpenRequest:
+			i.mu.Lock()
+			ho := i.holdOpen
+			i.mu.Unlock()
+			if ho {
+				return true
 			}
 		case *message.UpstreamCall:
 			i.mu.Lock()
@@ -316,6 +327,9 @@ func (i *impl) closedEvOf(st *stream) int32 {
 	if i.closed && st.evAtClose >= 0 {
 		return st.evAtClose // what happens to a stream after the connection's Close is judged by the oracles, not shown
 	}
+	if st.overlapClosed {
+		return 1 // the application closed it; zero or one notification, never two (checked on the raw counter)
+	}
 	return atomic.LoadInt32(&st.closedEv)
 }
 
@@ -342,6 +356,12 @@ func (i *impl) summary() string {
 			continue
 		}
 		ss = append(ss, fmt.Sprintf("%d:%s:%s:%d:%d", st.sid, st.dir, i.streamState(st), atomic.LoadInt32(&st.resumedEv), i.closedEvOf(st)))
+	}
+	for _, st := range i.streams {
+		if n := atomic.LoadInt32(&st.closedEv); n > 1 && !st.flaggedTwice {
+			st.flaggedTwice = true
+			i.pendingViolation = fmt.Sprintf("stream %d received %d closed notifications", st.sid, n)
+		}
 	}
 	popen := 0
 	for _, st := range i.streams {
@@ -433,13 +453,15 @@ func (i *impl) releaseAttempt(outcome string) {
 // answers it)
 func (i *impl) awaitResumeRequests(h *lp.H) {
 	want := 0
-	for _, st := range i.streams {
-		if st.opened && atomic.LoadInt32(&st.closedEv) == 0 && int(atomic.LoadInt32(&st.attached)) != i.curInc() {
-			want++
-		}
-	}
 	cur := i.curIncPtr()
 	if !waitUntil(wd, func() bool {
+		// recomputed on every poll: a closed notification (cut resume) may still be on its way
+		want = 0
+		for _, st := range i.streams {
+			if st.opened && i.closedEvOf(st) == 0 && int(atomic.LoadInt32(&st.attached)) != i.curInc() {
+				want++
+			}
+		}
 		i.mu.Lock()
 		defer i.mu.Unlock()
 		n := 0
@@ -450,7 +472,23 @@ func (i *impl) awaitResumeRequests(h *lp.H) {
 		}
 		return n >= want
 	}) {
-		h.Violate(fmt.Sprintf("after the recovery %d stream(s) should send a resume request; fewer arrived within %v: a stream is left detached", want, wd))
+		diag := fmt.Sprintf("incs=%d status=%s", len(i.incs()), i.status())
+		for _, st := range i.streams {
+			diag += fmt.Sprintf(" [s%d %s opened=%v attached=%d closedEv=%d resumedEv=%d]", st.sid, st.dir, st.opened, atomic.LoadInt32(&st.attached), atomic.LoadInt32(&st.closedEv), atomic.LoadInt32(&st.resumedEv))
+		}
+		i.mu.Lock()
+		for _, hh := range i.held {
+			diag += fmt.Sprintf(" held(inc=%d answered=%v)", hh.inc.N, hh.msg == nil)
+		}
+		i.mu.Unlock()
+		var last []string
+		lg := i.b.LogFrom(0)
+		for k := len(lg) - 1; k >= 0 && len(last) < 10; k-- {
+			if _, isPing := lg[k].Msg.(*message.Ping); !isPing {
+				last = append(last, fmt.Sprintf("%d:%T", lg[k].Inc, lg[k].Msg))
+			}
+		}
+		h.Violate(fmt.Sprintf("after the recovery %d stream(s) should send a resume request; fewer arrived within %v: a stream is left detached {%s last=%v}", want, wd, diag, last))
 	}
 }
 
@@ -462,7 +500,37 @@ func (i *impl) newGate() {
 }
 
 // lose: the transport dies under the client; returns once the client noticed
+// cutSet: streams whose resume request is unanswered on the current transport: a transport failure now cuts that exchange
+func (i *impl) cutSet() []*stream {
+	var cut []*stream
+	if cur := i.curIncPtr(); cur != nil {
+		i.mu.Lock()
+		for _, hh := range i.held {
+			if hh.inc == cur && hh.msg != nil && hh.id != uuid.Nil {
+				for _, st := range i.streams {
+					if st.id == hh.id && i.closedEvOf(st) == 0 {
+						cut = append(cut, st)
+					}
+				}
+			}
+		}
+		i.mu.Unlock()
+	}
+	return cut
+}
+
+// awaitCut: every stream whose resume exchange was cut is reported closed
+func (i *impl) awaitCut(h *lp.H, cut []*stream) {
+	for _, st := range cut {
+		if !waitUntil(wd, func() bool { return atomic.LoadInt32(&st.closedEv) > 0 }) {
+			h.Violate(fmt.Sprintf("stream %d: its resume exchange was cut by a transport failure and it was not reported closed within %v (left silently detached)", st.sid, wd))
+		}
+	}
+}
+
 func (i *impl) lose(h *lp.H) {
+	cut := i.cutSet()
+	defer i.awaitCut(h, cut)
 	d0 := atomic.LoadInt32(&i.disc)
 	i.b.Lock()
 	dials0 := i.b.Dials
@@ -508,6 +576,51 @@ func (i *impl) exec(h *lp.H, op string) string {
 			i.afterCloseErr(h, "open "+w[1], st.openErr, time.Since(t0))
 			i.streams = i.streams[:len(i.streams)-1]
 		}
+	case "opencut":
+		// a stream open whose request is in flight when the transport fails: it is sent again after the recovery and the stream
+		// it returns must be attached to the new transport and stay open
+		if i.status() != "c" {
+			break
+		}
+		st := &stream{sid: len(i.streams) + 1, dir: w[1][:1], evAtClose: -1}
+		i.streams = append(i.streams, st)
+		i.mu.Lock()
+		i.holdOpen = true
+		i.mu.Unlock()
+		n0 := i.b.LogLen()
+		go i.openStream(st)
+		if !waitUntil(wd, func() bool {
+			for _, r := range i.b.LogFrom(n0) {
+				switch r.Msg.(type) {
+				case *message.UpstreamOpenRequest, *message.DownstreamOpenRequest:
+					return true
+				}
+			}
+			return false
+		}) {
+			h.Violate("an open request on a healthy connection never reached the broker")
+		}
+		i.lose(h)
+		i.mu.Lock()
+		i.holdOpen = false
+		i.mu.Unlock()
+	case "reqshort":
+		// a request issued during the outage whose context ends before the recovery: it returns with its context's error when
+		// the context ends (not when the connection comes back) and is never sent
+		if i.status() != "r" {
+			break
+		}
+		t0 := time.Now()
+		ctx, cancel := context.WithTimeout(context.Background(), 120*time.Millisecond)
+		err := i.conn.SendBaseTime(ctx, &message.BaseTime{Name: "short" + w[1], BaseTime: time.Unix(1700000000, 0).UTC()})
+		cancel()
+		took := time.Since(t0)
+		if err == nil {
+			h.Violate("a request issued during the outage with a 120 ms context returned nil although the connection was down all the time")
+		} else if took > 600*time.Millisecond {
+			h.Violate(fmt.Sprintf("a request issued during the outage with a 120 ms context returned only after %v (%v)", took.Round(time.Millisecond), err))
+		}
+		i.shorts = append(i.shorts, "short"+w[1])
 	case "req", "reqcut":
 		id, _ := strconv.Atoi(w[1])
 		switch i.status() {
@@ -550,12 +663,80 @@ func (i *impl) exec(h *lp.H, op string) string {
 				h.Violate("a request after Close neither fails nor returns")
 			}
 		}
+	case "reqcutfast", "opencutfast":
+		// a request / stream open in flight when the transport fails, with an immediate redial: exactly one outage results
+		if i.status() != "c" {
+			break
+		}
+		d0, rc0 := atomic.LoadInt32(&i.disc), atomic.LoadInt32(&i.reconn)
+		cut := i.cutSet()
+		defer i.awaitCut(h, cut)
+		i.b.Lock()
+		i.b.DialGate = nil
+		i.b.Unlock()
+		i.ackAttempts++
+		n0 := i.b.LogLen()
+		var r *req
+		var st *stream
+		i.mu.Lock()
+		if w[0] == "reqcutfast" {
+			i.holdMeta = "r" + w[1]
+		} else {
+			i.holdOpen = true
+		}
+		i.mu.Unlock()
+		if w[0] == "reqcutfast" {
+			id, _ := strconv.Atoi(w[1])
+			r = i.issueReq(h, id)
+		} else {
+			st = &stream{sid: len(i.streams) + 1, dir: w[1][:1], evAtClose: -1}
+			i.streams = append(i.streams, st)
+			go i.openStream(st)
+		}
+		if !waitUntil(wd, func() bool {
+			for _, rec := range i.b.LogFrom(n0) {
+				switch rec.Msg.(type) {
+				case *message.UpstreamOpenRequest, *message.DownstreamOpenRequest, *message.UpstreamMetadata, *message.UpstreamCall:
+					return true
+				}
+			}
+			return false
+		}) {
+			h.Violate("a request on a healthy connection never reached the broker")
+		}
+		cur := i.curIncPtr()
+		i.mu.Lock()
+		i.holdMeta, i.holdOpen = "", false
+		i.mu.Unlock()
+		if cur != nil {
+			cur.Kill()
+		}
+		if !waitUntil(wd, func() bool { return atomic.LoadInt32(&i.disc) > d0 && atomic.LoadInt32(&i.reconn) > rc0 && i.status() == "c" }) {
+			h.Violate(fmt.Sprintf("the transport failed and the immediate redial succeeded, but within %v the connection did not report disconnected+reconnected (status %s)", wd, i.status()))
+			break
+		}
+		if r != nil {
+			i.settle(r, wd)
+			if r.res != "ok" {
+				h.Violate(fmt.Sprintf("request %d was interrupted by the transport failure and did not complete after the immediate recovery: %v", r.id, r.err))
+			}
+		} else if !waitUntil(wd, func() bool { return st.opened || st.openErr != nil }) || st.openErr != nil {
+			h.Violate(fmt.Sprintf("a stream open interrupted by the transport failure did not complete after the immediate recovery: %v", st.openErr))
+		}
+		// nothing else happens: the connection stays up (a stale error of the old transport must not be taken for a new outage)
+		time.Sleep(60 * time.Millisecond)
+		i.b.Lock()
+		i.released = i.b.Dials
+		i.b.Unlock()
+		i.awaitResumeRequests(h)
 	case "killfast":
 		// the transport fails and the redial succeeds at once (no gate): the outage is over before most goroutines have seen it
 		if i.status() != "c" {
 			break
 		}
 		d0, rc0 := atomic.LoadInt32(&i.disc), atomic.LoadInt32(&i.reconn)
+		cut := i.cutSet()
+		defer i.awaitCut(h, cut)
 		i.b.Lock()
 		i.b.DialGate = nil
 		i.b.Unlock()
@@ -698,6 +879,25 @@ func (i *impl) exec(h *lp.H, op string) string {
 				}
 			}
 			err = st.up.Close(ctx)
+		} else if wasLive && sid%2 == 0 {
+			// two overlapping Close calls on the same stream: at most one closed notification, at most one close request
+			st.overlapClosed = true
+			var wg sync.WaitGroup
+			wg.Add(1)
+			go func() { defer wg.Done(); st.down.Close(ctx) }()
+			err = st.down.Close(ctx)
+			wg.Wait()
+			err = nil
+			time.Sleep(3 * time.Millisecond)
+			n := 0
+			for _, r := range i.b.LogFrom(0) {
+				if m, ok := r.Msg.(*message.DownstreamCloseRequest); ok && m.StreamID == st.id {
+					n++
+				}
+			}
+			if n > 1 {
+				h.Violate(fmt.Sprintf("stream %d: two overlapping Close calls sent %d close requests", sid, n))
+			}
 		} else {
 			err = st.down.Close(ctx)
 		}
@@ -737,7 +937,9 @@ func (i *impl) exec(h *lp.H, op string) string {
 		if took := time.Since(t0); took > 1200*time.Millisecond {
 			h.Violate(fmt.Sprintf("stream %d: Close(ctx=400ms) returned after %v", sid, took))
 		}
-		if wasLive {
+		if wasLive && st.overlapClosed {
+			time.Sleep(20 * time.Millisecond)
+		} else if wasLive {
 			if !waitUntil(wd, func() bool { return atomic.LoadInt32(&st.closedEv) > cl0 }) {
 				h.Violate(fmt.Sprintf("stream %d: Close returned (%v), no closed notification within %v", sid, err, wd))
 			}
@@ -764,7 +966,7 @@ func (i *impl) exec(h *lp.H, op string) string {
 		}
 		var bl []blocked
 		for _, st := range i.streams {
-			if st.opened && st.down != nil && atomic.LoadInt32(&st.closedEv) == 0 {
+			if st.opened && st.down != nil && i.closedEvOf(st) == 0 {
 				b := blocked{fmt.Sprintf("ReadDataPoints on stream %d blocked at Close", st.sid), make(chan error, 1)}
 				bl = append(bl, b)
 				go func(d *iscp.Downstream) {
@@ -836,7 +1038,7 @@ func (i *impl) exec(h *lp.H, op string) string {
 			}
 		}
 		for _, st := range i.streams {
-			st.evAtClose = atomic.LoadInt32(&st.closedEv)
+			st.evAtClose = i.closedEvOf(st)
 		}
 		time.Sleep(5 * time.Millisecond)
 		defer func() {
@@ -936,6 +1138,17 @@ func (i *impl) afterCloseErr(h *lp.H, what string, err error, took time.Duration
 func (i *impl) probe(h *lp.H) {
 	if i.conn == nil {
 		return
+	}
+	for _, r := range i.b.LogFrom(0) {
+		if m, ok := r.Msg.(*message.UpstreamMetadata); ok {
+			if bt, ok := m.Metadata.(*message.BaseTime); ok {
+				for _, sname := range i.shorts {
+					if bt.Name == sname {
+						h.Violate("a request whose context had ended during the outage was sent after the recovery")
+					}
+				}
+			}
+		}
 	}
 	if !i.closed && i.status() == "c" {
 		// every stream that is attached keeps working
@@ -1178,6 +1391,36 @@ func main() {
 					}
 				}
 				sig += "Q"
+			case status == "c" && r >= 46 && r < 50 && nstreams < 5:
+				nstreams++
+				do("opencut " + []string{"up", "down"}[rng.Intn(2)])
+				status, fails, attempting = "r", 0, true
+				for k := 1; k < nstreams; k++ {
+					if resuming[k] {
+						closedS[k] = true
+						delete(resuming, k)
+					} else if !closedS[k] {
+						resuming[k] = true
+					}
+				}
+				sig += "C"
+			case status == "c" && r >= 50 && r < 56:
+				if rng.Intn(2) == 0 && nstreams < 5 {
+					nstreams++
+					do("opencutfast " + []string{"up", "down"}[rng.Intn(2)])
+				} else {
+					nreq++
+					do(fmt.Sprintf("reqcutfast %d", nreq))
+				}
+				for k := 1; k <= nstreams; k++ {
+					if resuming[k] {
+						closedS[k] = true
+						delete(resuming, k)
+					} else if !closedS[k] && k < nstreams+1 {
+						resuming[k] = true
+					}
+				}
+				sig += "Z"
 			case status == "c" && r >= 38 && r < 46:
 				do("killfast")
 				for k := 1; k <= nstreams; k++ {
@@ -1224,10 +1467,14 @@ func main() {
 				do("dial ok")
 				status = "c"
 				sig += "d"
-			case status == "r" && r < 82:
+			case status == "r" && r < 78:
 				nreq++
 				do(fmt.Sprintf("req %d", nreq))
 				sig += "p"
+			case status == "r" && r < 82 && attempting:
+				nreq++
+				do(fmt.Sprintf("reqshort %d", nreq))
+				sig += "S"
 			case status == "r" && r < 88 && nstreams < 5:
 				nstreams++
 				do("open " + []string{"up", "down"}[rng.Intn(2)])
